@@ -1,15 +1,32 @@
 #!/bin/sh
 # usage: bin/mutant_run.sh [-R] <patch file> <ID> [<ID> ...]
-# applies the patch to /repo's working tree (with -R: reverses a fix commit), runs the quick
-# checks, and always restores /repo afterwards.  Prints one line per check: exit code + verdict.
+# Applies the patch (with -R: reverses a fix commit), runs the quick checks, and always restores
+# the tree afterwards.  Prints one line per check: exit code + verdict.
+# By default the patch is applied to /repo's working tree itself.  With MUT_ROOT=<dir> set, the
+# run happens in a scratch root instead: <dir>/repo is a git worktree of /repo's HEAD and
+# <dir>/verif a copy of /verif (without build output), so /repo and /verif stay untouched and
+# development can go on in parallel; the harness's relative path dependency resolves inside <dir>.
 REV=""
 if [ "$1" = "-R" ]; then REV="-R"; shift; fi
 PATCH=$(realpath "$1"); shift
 ROOT=$(cd "$(dirname "$0")/.." && pwd)
 REPO=${VERIF_REPO:-/repo}
+if [ -n "$MUT_ROOT" ]; then
+  mkdir -p "$MUT_ROOT"
+  if [ ! -d "$MUT_ROOT/repo" ]; then git -C /repo worktree add -f --detach "$MUT_ROOT/repo" HEAD >/dev/null 2>&1 || exit 2; fi
+  git -C "$MUT_ROOT/repo" checkout -q --detach "$(git -C /repo rev-parse HEAD)" 2>/dev/null
+  git -C "$MUT_ROOT/repo" checkout -- .
+  rsync -a --delete --exclude harness/target --exclude work --exclude .git --exclude replays/found --exclude evidence "$ROOT/" "$MUT_ROOT/verif/"
+  REPO="$MUT_ROOT/repo"; ROOT="$MUT_ROOT/verif"
+  export CARGO_TARGET_DIR="$MUT_ROOT/target"
+fi
 if ! git -C "$REPO" diff --quiet; then echo "refusing: $REPO has uncommitted changes"; exit 2; fi
 if ! git -C "$REPO" apply $REV "$PATCH"; then echo "patch does not apply: $PATCH"; exit 2; fi
-trap 'git -C "$REPO" checkout -- . ; (cd "$ROOT/harness" && CARGO_NET_OFFLINE=true cargo build --release --offline >/dev/null 2>&1)' EXIT INT TERM
+if [ -n "$MUT_ROOT" ]; then
+  trap 'git -C "$REPO" checkout -- . ' EXIT INT TERM
+else
+  trap 'git -C "$REPO" checkout -- . ; (cd "$ROOT/harness" && CARGO_NET_OFFLINE=true cargo build --release --offline >/dev/null 2>&1)' EXIT INT TERM
+fi
 for ID in "$@"; do
   OUT=$("$ROOT/bin/check" "$ID" quick 2>&1); RC=$?
   echo "== $(basename "$PATCH") $REV $ID exit=$RC"
